@@ -36,7 +36,7 @@ def run(tier, seed):
     cst = {"traces": 0, "states": 0, "transitions": 0, "schedules": 0, "stalls": 0, "events": 0}
     fam = [(n, p) for n, p in ce.pair_family() if n.startswith("expired|") or "|sweep" in n or "sweep|" in n]
     res = ce.run_dfs(fxv, rd, fam, "sweep", maxsched=400 if tier == "quick" else 3000, preempt=2 if tier == "quick" else 3)
-    collect(PROP, res, rd, ["SweepSafe", "Linearizable"], viol, cst)
+    collect(PROP, res, rd, ["SweepSafe", "Linearizable", "NotHidden"], viol, cst)
     st["traces"] += cst["traces"]; st["states"] += cst["states"]; st["transitions"] += cst["transitions"]
     st["events"] += cst["events"]
     cov = q.coverage_dict(
